@@ -88,11 +88,9 @@ impl ScriptStack for Vec<Vec<u8>> {
     fn pop_bool(&mut self) -> Result<bool, InterpreterError> {
         let data = self.pop().ok_or(InterpreterError::EmptyStack)?;
 
-        if data.len() > 4 {
-            return Err(InterpreterError::TooLongForBool);
-        }
-
-        Ok(BigInt::from_signed_bytes_le(&data) >= BigInt::from_slice(num_bigint::Sign::Plus, &[1]))
+        // A byte string is false iff every byte is zero, where the last byte may also be 0x80 (negative zero).
+        let last = data.len().saturating_sub(1);
+        Ok(data.iter().enumerate().any(|(i, byte)| if i == last { byte & 0x7f != 0 } else { *byte != 0 }))
     }
 
     fn push_bool(&mut self, boolean: bool) -> Result<(), InterpreterError> {
